@@ -29,6 +29,7 @@ from .errors import AllocationError
 from .greedy_allocation import allocate_live_ranges as greedy_allocate_live_ranges
 from .live_range import LiveRange
 from .live_range import LiveRangeGraph
+from .nn_graph import PassPlacement
 from .nn_graph import TensorAllocator
 from .tensor import MemArea
 from .tensor import MemType
@@ -245,6 +246,14 @@ def allocate_tensors(
     dry_test=False,
 ):
     # Allocates addresses to tensors, returns False if tensors could not be fit within max_size
+    if lr_graph is None and sg == nng.get_root_subgraph():
+        # Subgraphs that no operator refers to (further entry points of the model) are not reached from the root
+        # subgraph. Their tensors need addresses too
+        lr_graph = live_range.LiveRangeGraph()
+        for entry_sg in [sg] + [other for other in nng.subgraphs if other.placement == PassPlacement.Cpu]:
+            lr_graph = live_range.extract_live_ranges_from_cascaded_passes(
+                entry_sg, mem_area, mem_type_set, lr_graph, cpu_tensor_alignment, verbose_progress
+            )
     lrs, total_sz = allocate(
         sg,
         arch,
